@@ -124,7 +124,12 @@ func (ev *evaluator) ev(e ast.Expr) *Val {
 			_, _, doms, vals := ev.x.mapSorts(bt)
 			dom := ev.x.ctx.hread(ev.st, mapDomName(bt), doms, base.T)
 			val := ev.x.ctx.hread(ev.st, mapValName(bt), vals, base.T)
-			return &Val{T: Ite(And(Neq(base.T, IntLit(0)), Select(dom, idx.T)), Select(val, idx.T), TE.zeroValue(bt.Elem())), Typ: bt.Elem()}
+			kk := idx.T
+			if typeHasString(bt.Key()) {
+				ev.own()
+				kk = ev.x.mapKey(ev.st, idx.T, bt.Key())
+			}
+			return &Val{T: Ite(And(Neq(base.T, IntLit(0)), Select(dom, kk)), Select(val, kk), TE.zeroValue(bt.Elem())), Typ: bt.Elem()}
 		case *types.Array:
 			return &Val{T: Select(base.T, idx.T), Typ: bt.Elem()}
 		}
@@ -712,6 +717,22 @@ func (ev *evaluator) callExpr(n *ast.CallExpr) *Val {
 			v := ev.ev(n.Args[0])
 			t := ev.resolveType(n.Args[1])
 			return &Val{T: Eq(ifTag(v.T), IntLit(int64(TE.TagOf(t)))), Typ: boolT}
+		case "haskey":
+			// haskey(m, k): k is a key of map m
+			m := ev.ev(n.Args[0])
+			k := ev.ev(n.Args[1])
+			mt, ok := m.Typ.Underlying().(*types.Map)
+			if !ok {
+				ev.errorf("haskey on %s", m.Typ)
+			}
+			_, _, doms, _ := ev.x.mapSorts(mt)
+			dom := ev.x.ctx.hread(ev.st, mapDomName(mt), doms, m.T)
+			kk := k.T
+			if typeHasString(mt.Key()) {
+				ev.own()
+				kk = ev.x.mapKey(ev.st, k.T, mt.Key())
+			}
+			return &Val{T: And(Neq(m.T, IntLit(0)), Select(dom, kk)), Typ: boolT}
 		case "streq":
 			a := ev.ev(n.Args[0])
 			b := ev.ev(n.Args[1])
